@@ -90,6 +90,16 @@ def run(pid, spec, res, driver_ok, thorough, seed):
     mon = monitors.MON[pid]
     keys, offers_mode = spec.get("keys"), spec.get("offers")
     deepen = bool(res.broken)
+    # source drift: the hand model was validated against another text of these functions
+    try:
+        import subprocess
+        dr = json.loads(subprocess.run(["/venv/bin/python", os.path.join(VERIF, "tools", "fingerprints.py")],
+                                       stdout=subprocess.PIPE, timeout=120).stdout.decode())
+    except Exception as e:
+        dr = {"drift": [], "properties": [], "error": str(e)}
+    res.cov["source_drift"] = dr.get("drift", [])[:20]
+    if pid in dr.get("properties", []):
+        deepen = True
     if thorough:
         count, budget = 1500, 420
     else:
